@@ -55,6 +55,34 @@ def gen_cases(rng, tier):
                       "ppos": enc(ppos), "pneg": enc(pneg), "thr": [enc(t) for t in thr], "metric": metric,
                       "targets": [enc(Fraction(rng.randint(0, 32), 32)) for _ in range(4)], "exact": exact,
                       "window": [enc(Fraction(rng.randint(0, 8), 16)), enc(Fraction(rng.randint(8, 16), 16))]})
+    # a few hundred thousand easy samples next to ~100 scored ones: the easy ratio is within 1e-5 of 1 and the targets lie
+    # in the sliver above it, half a sample off the grid (the materialised object really holds the 4e5 extreme scores)
+    for k in range({"quick": 6, "thorough": 30, "search": 12}[tier]):
+        metric = ["tpr", "tnr", "topr", "tonr", "fnr", "fpr"][k % 6]
+        npos, nneg = rng.randint(60, 110), rng.randint(60, 110)
+        vals = rng.sample(range(-2000, 2000), npos + nneg)
+        pos, neg = [Fraction(v, 8) for v in vals[:npos]], [Fraction(v, 8) for v in vals[npos:]]
+        ep, en = rng.choice([400000, 250000, 0]), rng.choice([300000, 200000, 0])
+        if metric in ("tpr", "fnr", "topr") and ep == 0:
+            ep = 400000
+        if metric in ("tnr", "fpr", "tonr") and en == 0:
+            en = 300000
+        sc, ec = rng.choice(CONFIGS)
+        allv = pos + neg
+        lo, hi = min(allv), max(allv)
+        ppos, pneg = (hi + 1, lo - 1) if sc == "pos" else (lo - 1, hi + 1)
+        n_rel, e_rel = {"tpr": (npos, ep), "fnr": (npos, ep), "tnr": (nneg, en), "fpr": (nneg, en),
+                        "topr": (npos + nneg, ep), "tonr": (npos + nneg, en)}[metric]
+        tot = {"tpr": npos + ep, "fnr": npos + ep, "tnr": nneg + en, "fpr": nneg + en}.get(metric, npos + nneg + ep + en)
+        tg = []
+        for i_ in range(4):
+            j = rng.randint(1, n_rel - 2) if i_ >= 2 else rng.randint(1, 3)     # two targets within 1e-5 of the easy ratio
+            x = Fraction(2 * j + 1, 2 * tot)                     # half a sample off the grid, among the scored samples
+            tg.append(x if metric in ("fnr", "fpr") else (Fraction(e_rel, tot) + x if metric in ("tpr", "tnr", "topr", "tonr") else x))
+        cases.append({"pos": [enc(x) for x in pos], "neg": [enc(x) for x in neg], "ep": ep, "en": en, "sc": sc, "ec": ec,
+                      "ppos": enc(ppos), "pneg": enc(pneg), "thr": [enc(rng.choice(allv)), enc(Fraction(rng.randint(int(lo), int(hi))))],
+                      "metric": metric, "targets": [enc(Fraction(float(t))) for t in tg], "exact": False, "huge": True,
+                      "window": [enc(Fraction(rng.randint(0, 8), 16)), enc(Fraction(rng.randint(8, 16), 16))]})
     return cases
 
 
@@ -92,6 +120,8 @@ def coq_term(case, res):
     if "ok" not in res:
         return "false"
     r = res["ok"]
+    if case.get("huge"):
+        return None       # 4e5-element score lists are not evaluated in Coq; the paired oracle decides these cases
     s = tc.scores_term(case)
     thr = "[" + "; ".join(cq.ext(F(t)) for t in case["thr"]) + "]"
     exp = "[" + "; ".join(_cmz(m) for m in r["cm_mat"]) + "]"
@@ -118,9 +148,17 @@ def oracle(case, res):
         tv, tm = F(r["thr"][j]), F(r["thr_mat"][j])
         if lo <= tm <= hi:   # materialised threshold falls within the range of the scored samples
             tol = 2 * tau   # a sentinel is one ulp outside the last sample (the 'few ulp' of C02)
+            if case.get("huge"):
+                # r - easy_ratio cancels: the rescaled target carries an error of about 2^-53 * N_all / N_scored, i.e.
+                # 2^-53 * N_all sample positions; one position is at most the largest gap between scored samples
+                rel_, _ = tc.relevant(case)
+                sv = sorted(rel_)
+                gap = max((b_ - a_ for a_, b_ in zip(sv, sv[1:])), default=Fraction(0))
+                n_all = len(case["pos"]) + len(case["neg"]) + case["ep"] + case["en"]
+                tol += gap * n_all * Fraction(1, 2 ** 48)
             if abs(tv - tm) > tol:
                 fails.append((f"C09/threshold/{case['metric']}/{cfg}", f"target {t}: virtual {tv} vs materialised {tm}"))
-    tol = Fraction(1, 10 ** 12)
+    tol = Fraction(1, 10 ** 9) if case.get("huge") else Fraction(1, 10 ** 12)
     for j, (a, b) in enumerate(zip(r["auc"], r["auc_mat"])):
         if abs(F(a) - F(b)) > tol:
             fails.append((f"C09/auc/{j}/{cfg}", f"AUC #{j} (0 full, 1 partial fpr/tpr, 2-3 other axes) window {case['window']}: virtual {a} vs materialised {b}"))
